@@ -77,7 +77,11 @@ def linksLine (src : String) : String :=
           ("mainIntParams3", !validMain p' || Core2AxCut.mainIntParams st.s3),
           ("wtAx4", C12_isOk (AxCut.Named.wtAxCheck st.s4)), ("wfNonLinear4", AxCut.wfNonLinearCheck st.s4),
           ("noEnvAnn4", AxCut.noEnvAnnProg st.s4), ("linTyped5", C12_isOk (AxCut.linTypedCheck st.s5)),
-          ("x86", !validMain p' || C12_okOrCapacityB (backEndX86 true 0 st.s5)),
+          -- `backEndX86` tags its errors with the stage (`S6x compile: Out of temporaries`): a capacity message is one
+          -- of the documented ones possibly behind that tag
+          ("x86", !validMain p' || (match backEndX86 true 0 st.s5 with
+              | .ok _ => true
+              | .error e => C12_capacityErrors.any (fun m => e == m || e.endsWith (": " ++ m)))),
           ("a64", !validMain p' || C12_okOrCapacityB (A64.compileProg A64.a64Backend st.s5 true 0)),
           ("rv", !validMain p' || C12_okOrCapacityB (RV.compileRoutine st.s5 true 0))]
         let bad := pre ++ (cs.filter (fun c => !c.2)).map (·.1)
